@@ -126,7 +126,9 @@ impl<S: WebSocket, T: TimestampProvider> Task<S, T> {
     // It doesn't make sense to return a `Result` here because we can't propagate
     // the error to the user from a spawned task.
     // Instead, the user will notice when `rx` channels return `None`.
-    #[cfg_attr(feature = "tokio-rt", tracing::instrument(skip_all, level = "debug", fields(task_id = %tokio::task::id())))]
+    // `try_id`: the future may be polled outside of a spawned `tokio` task (`block_on`,
+    // `join!` next to the application, another executor), where `id()` panics.
+    #[cfg_attr(feature = "tokio-rt", tracing::instrument(skip_all, level = "debug", fields(task_id = %tokio::task::try_id().as_ref().map_or_else(|| "-".to_string(), tokio::task::Id::to_string))))]
     #[cfg_attr(
         not(feature = "tokio-rt"),
         tracing::instrument(skip_all, level = "debug")
